@@ -684,6 +684,43 @@ def gen_pattern(rng, target):
     return None
 
 
+def gen_h_transfer(rng):
+    """H (or X) transfer to an open-valence atom A that sits next to a B-H of its own molecule, from a B-H of a second
+    molecule:  .A-B-H + R-B-H -> H-A-B. ... : the intermolecular transfer (active atoms in NO ring) competes with the
+    intramolecular 1,2-shift (3-membered ring) with the same active elements - the size-0 boundary of the ring lists
+    in prune_small_ring_rearrs"""
+    for _ in range(40):
+        a = rng.choice(["C", "C", "N", "Si"])
+        b = rng.choice(["O", "O", "N", "S", "C"])
+        x = rng.choice(["H", "H", "H", "F", "Cl"])
+        syms1, bonds1 = [a, b], [(0, 1)]
+        for _k in range(max(0, CHEM_VAL.get(a, 4) - 2)):
+            syms1.append("H")
+            bonds1.append((0, len(syms1) - 1))
+        syms1.append(x)
+        bonds1.append((1, len(syms1) - 1))
+        for _k in range(max(0, CHEM_VAL[b] - 2)):
+            syms1.append("H")
+            bonds1.append((1, len(syms1) - 1))
+        syms2, bonds2 = ["C", b], [(0, 1)]
+        for _k in range(rng.randint(0, 3)):
+            syms2.append("H")
+            bonds2.append((0, len(syms2) - 1))
+        syms2.append(x)
+        x2 = len(syms2) - 1
+        bonds2.append((1, x2))
+        for _k in range(max(0, CHEM_VAL[b] - 2)):
+            syms2.append("H")
+            bonds2.append((1, len(syms2) - 1))
+        n1 = len(syms1)
+        if n1 + len(syms2) > 12:
+            continue
+        case = _finish_case(rng, [(syms1, bonds1), (syms2, bonds2)], [(n1 + 1, n1 + x2)], [(0, n1 + x2)], "h-transfer")
+        if case is not None:
+            return case
+    return None
+
+
 # ============================================================================ implementation runner (worker side)
 class _QueryCap(Exception):
     pass
@@ -1125,8 +1162,13 @@ def prune_stream(ctx, rng, n_cases, terms, descr, findings):
             r_edges = [list(e) for e in reactant.graph.edges]
             for skip in (False, True):
                 Config.skip_small_ring_tss = skip
-                lst = br.strip_equiv_bond_rearrs(list(objs), reactant)
-                br.prune_small_ring_rearrs(lst, reactant)
+                try:
+                    lst = br.strip_equiv_bond_rearrs(list(objs), reactant)
+                    br.prune_small_ring_rearrs(lst, reactant)
+                except Exception as e:  # noqa
+                    findings.append(("prune-raises", f"pruning {brs} (ring sizes {rings}, skip_small_ring_tss={skip}) raised "
+                                     f"{type(e).__name__}: {e}", {"kind": "prune", "reac": reac, "brs": brs, "skip": skip}))
+                    continue
                 out = [(list(b.fbonds), list(b.bbonds)) for b in lst]
                 if len(out) == 0:
                     findings.append(("pruned-to-empty", f"pruning removed every rearrangement of {brs} (skip={skip})",
@@ -1269,7 +1311,7 @@ def build_cases(ctx):
             c = gen(rng)
             if c is not None:
                 cases.append(c)
-    for gen, nq, nt in ((gen_sequential, 18, 150), (gen_hypervalent, 22, 180),
+    for gen, nq, nt in ((gen_sequential, 18, 150), (gen_hypervalent, 22, 180), (gen_h_transfer, 10, 80),
                         (lambda r: gen_identity(r, True), 6, 40), (lambda r: gen_identity(r, False), 4, 30)):
         for i in range(nq if quick else nt):
             c = gen(rng)
@@ -1417,6 +1459,24 @@ def replay(ctx, obj):
     sys.path.insert(0, REPO)
     load_maxval()
     rep = obj.get("replay", {})
+    if rep.get("kind") == "prune":
+        from autode import bond_rearrangement as br
+        from autode.config import Config
+        n = sum(len(m[0]) for m in rep["reac"]["mols"])
+        syms, edges = flat_reactant(rep["reac"])
+        reactant, _ = _build({"reac": rep["reac"], "prod": {"syms": syms, "bonds": [list(e) for e in edges], "perm": list(range(n))}})
+        objs = [br.BondRearrangement(forming_bonds=[tuple(e) for e in f], breaking_bonds=[tuple(e) for e in b]) for f, b in rep["brs"]]
+        old_skip, Config.skip_small_ring_tss = Config.skip_small_ring_tss, rep["skip"]
+        try:
+            lst = br.strip_equiv_bond_rearrs(list(objs), reactant)
+            br.prune_small_ring_rearrs(lst, reactant)
+            print("replay: pruning kept", [(b.fbonds, b.bbonds) for b in lst], "; stored:", obj.get("what"))
+            return 1 if len(lst) == 0 else 0
+        except Exception as e:  # noqa
+            print(f"replay: prune-raises {type(e).__name__}: {e} ; stored:", obj.get("what"))
+            return 1
+        finally:
+            Config.skip_small_ring_tss = old_skip
     if rep.get("kind") != "case":
         print("replay: stored object is not an enumeration case:", rep.get("kind"), "; stored:", obj.get("what"))
         return 0
